@@ -80,13 +80,25 @@ class Time(SimpleModel):
 
     @staticmethod
     def validate_native(cls, value):
-        return SimpleModel.validate_native(cls, value) and (
-            value is None or (
-                (cls.Attributes.gt is None or value >  cls.Attributes.gt)
-                and value >= cls.Attributes.ge
-                and (cls.Attributes.lt is None or value <  cls.Attributes.lt)
-                and value <= cls.Attributes.le
-            ))
+        if not SimpleModel.validate_native(cls, value):
+            return False
+
+        if value is None:
+            return True
+
+        def b(bound):
+            # aware and naive times don't compare: a bound that says nothing
+            # about its zone is a local time of day in the zone of the value
+            if (bound.tzinfo is None) != (value.tzinfo is None):
+                return bound.replace(tzinfo=value.tzinfo)
+            return bound
+
+        attrs = cls.Attributes
+        return (    (attrs.gt is None or value >  b(attrs.gt))
+                and value >= b(attrs.ge)
+                and (attrs.lt is None or value <  b(attrs.lt))
+                and value <= b(attrs.le)
+        )
 
 _min_dt = datetime.datetime.min.replace(tzinfo=spyne.LOCAL_TZ)
 _max_dt = datetime.datetime.max.replace(tzinfo=spyne.LOCAL_TZ)
